@@ -47,6 +47,9 @@ def hooks(interp, frame, call, fname, args, kwargs, st):
     ext = interp.ext_name(fname, frame)
     if ext == "numpy.sort" and args and isinstance(args[0], Vec):
         return Vec(args[0].base, args[0].off, True)
+    if ext == "numpy.unique" and len(args) == 1 and not kwargs and isinstance(args[0], Vec):
+        # sorted AND de-duplicated: a different multiset than its argument (length may shrink)
+        return Vec("unique(%s)" % args[0].base, args[0].off, True)
     if ext in ("builtins.isinstance", "numpy.issubdtype"):
         return K(True) if ext == "numpy.issubdtype" else NotImplemented
     return NotImplemented
@@ -484,6 +487,15 @@ def check_cutoff_splitter(ctx, repo):
     rec = recs[0]
     loc = "%s:%s" % (mod.relpath, rec.node.lineno)
     train, test = split_parts(rec.value)
+    if len(rec.loops) == 1 and isinstance(rec.loops[0].it, Vec) and rec.loops[0].it.base == "unique(cutoffs)":
+        # the loop runs over the de-duplicated cutoffs: the count must be taken from the same collection
+        tr, fs, k3 = run_method(repo, make_interp(repo), selfv, "get_n_splits", {"y": Arr("y", N, "series")}, base_facts())
+        rets = [o[1] for s, o in tr if o[0] == "return"]
+        if len(rets) == 1 and rets[0] == Lin.sym("len(cutoffs)"):
+            ctx.violation("R4", tag + ":get_n_splits",
+                          "split yields one window per *distinct* cutoff (%r) but get_n_splits counts the raw cutoffs %r"
+                          % (rec.loops[0].it, rets[0]), loc, witness={"cutoffs": [3, 3], "yielded": 1, "get_n_splits": 2})
+            return
     if len(rec.loops) != 1 or not isinstance(rec.loops[0].it, Vec) or rec.loops[0].it.base != "cutoffs":
         ctx.undecided("R1", tag + ":loop", "does not iterate the validated cutoffs: %r" % (rec.loops,), loc)
         return
